@@ -34,6 +34,7 @@ def make_case(seed, i):
     if loc in ("import", "graph", "version_import") and cfg.imports == 0:
         cfg.imports = rng.randint(1, 2)
     targets = [t for t in ("cpp", "python", "json", "matlab") if rng.chance(0.6)] or ["json"]
+    cfg.odd_namespaces = True
     pkg = M.gen_package(rng.next(), cfg, targets=targets)
     M.randomize_target_options(pkg, rng.fork("options"), p=0.3)
     # output directory placement: sibling tree or inside the package directory
